@@ -240,6 +240,9 @@ KNOWN = {
     # columns with different candidates) collide on the exported id
     "K-dup-ids@C18": lambda case, sql, inv, d: inv == "ids:column" and bool(d.get("kinds")) and set(d["kinds"]) <= {"subquery", "subquery_or_unresolved_column"},
     "K-lateral-alias@C18": lambda case, sql, inv, d: inv == "tables" and "lateral view" in sql and not d["in_summaries_not_exported"],
+    # tables read only inside a scalar subquery of the select list are missing from table lineage (K-scalar-select@C01) but their columns are lineage sources
+    "K-scalar-select@C18": lambda case, sql, inv, d: inv == "tables" and not d["in_summaries_not_exported"] and bool(d["exported_not_in_summaries"])
+    and re.search(r"(select|,)\s*\(\s*select\b", sql) is not None,
     "K-values-alias@C18": lambda case, sql, inv, d: inv == "tables" and not d["in_summaries_not_exported"] and bool(d["exported_not_in_summaries"])
     and all(_values_alias(sql, t) for t in d["exported_not_in_summaries"]),
     "K-rename-orphan@C18": lambda case, sql, inv, d: inv == "tables" and "rename" in sql and not d["in_summaries_not_exported"]
